@@ -186,12 +186,92 @@ def gen_loc_chain(g):
     return None
 
 
-def gen_chain(g):
-    """a document and a path of steps written as Coq's chain_path writes them: (doc, text, spec for keyc, values reached)"""
+def chain_children(v):
+    """the elements of an array in index order / the member values of an object in ascending key order"""
+    if v[0] == 'a':
+        return list(v[1])
+    if v[0] == 'o':
+        seen = {}
+        for kk, x in v[1]:
+            seen[kk] = x
+        return [seen[kk] for kk in sorted(seen)]
+    return []
+
+
+def inner_reach(spec, vals):
+    """the values the inner steps of a filter (names, decimal indexes, wildcards, `..name`) reach from vals"""
+    cur = list(vals)
+    for st in spec:
+        rec = st[0] == 4
+        if rec:
+            cur = [c1 for v in cur for c1 in chain_below(v)]
+            st = tuple(st[1:])
+        if st[0] in (2, 3):
+            cur = [x for v in cur for x in chain_children(v)]
+        elif st[0] == 1:
+            n_ = int(''.join(chr(c) for c in st[1]))
+            cur = [v[1][n_] for v in cur if v[0] == 'a' and n_ < len(v[1])]
+        else:
+            kb = ''.join(chr(c) for c in st[1]).encode('utf-8')
+            nxt = []
+            for v in cur:
+                if v[0] == 'o':
+                    nxt += [x for kk, x in v[1] if kk == kb][-1:]
+            cur = nxt
+    return cur
+
+
+def gen_inner(r, child):
+    """0..2 inner steps of a filter over a value like child: (text, spec)"""
+    text, spec, cur = '', [], child
+    for _ in range(r.choice([0, 1, 1, 1, 2])):
+        rec = r.random() < 0.15
+        k = r.random()
+        if cur is not None and cur[0] == 'a' and k < 0.6:
+            n_ = r.randint(0, len(cur[1]))
+            text += ('..' if rec else '') + '[%d]' % n_
+            spec.append((4, 1, [ord(ch) for ch in str(n_)]) if rec else (1, [ord(ch) for ch in str(n_)]))
+            cur = cur[1][n_] if n_ < len(cur[1]) else None
+        elif k < 0.15:
+            dotw = r.random() < 0.5
+            text += ('..*' if dotw else '..[*]') if rec else ('.*' if dotw else '[*]')
+            spec.append((4, 2 if dotw else 3, []) if rec else ((2, []) if dotw else (3, [])))
+            ch = chain_children(cur) if cur is not None else []
+            cur = ch[0] if ch else None
+        else:
+            keys = [kk for kk, _ in cur[1]] if cur is not None and cur[0] == 'o' else []
+            kb = r.choice(keys) if keys and r.random() < 0.8 else r.choice([b'a', b'b', b'k', b'zz9'])
+            key = kb.decode('utf-8')
+            dot = gens.esc_dot(kb)
+            style = r.choice("'\"." if dot is not None else "'\"")
+            cps_ = [ord(ch) for ch in key]
+            if style == '.':
+                text += ('..' if rec else '.') + dot.decode('utf-8')
+                spec.append((4, 0, cps_) if rec else (0, cps_))
+            else:
+                body = ''.join('\\' + ch if ch in (style, '\\') else ('\\u%04x' % ord(ch) if ord(ch) < 0x20 else ch) for ch in key)
+                text += ('..' if rec else '') + '[' + style + body + style + ']'
+                spec.append((4, ord(style), cps_) if rec else (ord(style), cps_))
+            nxt = [x for kk, x in cur[1] if kk == kb][-1:] if cur is not None and cur[0] == 'o' else []
+            cur = nxt[0] if nxt else None
+    return text, spec
+
+
+def gen_chain(g, filters=0.0):
+    """a document and a path of steps written as Coq's chain_path writes them: (doc, text, spec for keyc, values reached);
+    with filters > 0 some steps are existence filters [?(@ inner)] (the text is then Coq's fchain_path)"""
     r = g.r
     doc = g.doc(3, False, 0)
     cur, text, spec = [doc], '$', []
     for _ in range(r.randint(1, 4)):
+        if filters and r.random() < filters:
+            conts = [v for v in cur if v[0] in 'ao' and v[1]]
+            kids = chain_children(r.choice(conts)) if conts else []
+            itext, ispec = gen_inner(r, r.choice(kids) if kids else None)
+            text += '[?(@' + itext + ')]'
+            spec.append((7, ispec))
+            cur = [x for v in cur for x in chain_children(v) if inner_reach(ispec, [x])]
+            continue
         rec = r.random() < 0.25
         if rec:
             cur = [c1 for v in cur for c1 in chain_below(v)]
@@ -316,15 +396,20 @@ class C01(EvalProp):
         r = g.r
         cases, want = [], {}
         for i in range(ctx.n(600, 6000) * budget_scale):
-            doc, text, spec, cur = gen_chain(g)
-            nodollar = spec[0][0] != 4 and r.random() < 0.25
+            fl = 0.3 if r.random() < 0.4 else 0.0
+            for _try in range(5 if fl else 1):
+                doc, text, spec, cur = gen_chain(g, filters=fl)
+                if cur or r.random() < 0.25:
+                    break
+            has_filter = any(st[0] == 7 for st in spec)      # C01_filter_retrieval: the text is Coq's fchain_path
+            nodollar = not has_filter and spec[0][0] != 4 and r.random() < 0.25
             if nodollar:
                 # C18_dollar_optional: the same path without its leading $ (a first dot name loses its dot, .* becomes *)
                 text = text[1:]
                 if text.startswith('.'):
                     text = text[1:]
             pad = None
-            if not nodollar and r.random() < 0.2:
+            if not nodollar and not has_filter and r.random() < 0.2:
                 # C18_outer_spaces_same_tree: blanks before and after the path
                 pad = (r.randint(0, 3), r.randint(0, 3))
                 text = ' ' * pad[0] + text + ' ' * pad[1]
